@@ -73,3 +73,17 @@ func (e *baseFibStrategyEntry) GetStrategy() enc.Name {
 func (e *baseFibStrategyEntry) GetNextHops() []*FibNextHopEntry {
 	return e.nexthops
 }
+
+// snapshot returns a copy of the entry that later changes of the table do not
+// reach. The listings hand out snapshots: their callers (management datasets)
+// read the entries after the table lock has been released.
+func (e *baseFibStrategyEntry) snapshot() *baseFibStrategyEntry {
+	c := &baseFibStrategyEntry{component: e.component, name: e.name, strategy: e.strategy}
+	if e.nexthops != nil {
+		c.nexthops = make([]*FibNextHopEntry, len(e.nexthops))
+		for i, nh := range e.nexthops {
+			c.nexthops[i] = &FibNextHopEntry{Nexthop: nh.Nexthop, Cost: nh.Cost}
+		}
+	}
+	return c
+}
